@@ -117,31 +117,1054 @@ class World:
             t._Task__wbs = None if rec[5] is None else self.wbss[rec[5]]
 
 
-def owner_task(W, ow):
-    return W.wbss[ow[1]]._root() if ow[0] == 'w' else W.objs[ow[1]]
+
+    # ----- helpers used by the executor -----
+    def is_root(self, k):
+        return self.objs[k].id == taskmod.EMPTY_TASK_ID
+
+    def wbs_of_root(self, k):
+        for w in self.wbss:
+            if w._root() is self.objs[k]:
+                return w
+        raise KeyError(k)
+
+    def nums(self, lst):
+        return [self.num[id(t)] for t in lst]
 
 
-def owner_list(W, ow):
-    """the children facade of a task / the roots facade of a WBS, obtained now"""
-    return W.wbss[ow[1]].roots if ow[0] == 'w' else W.objs[ow[1]].children
+# =====================================================================================================
+# execution of one operation of the model's op language through the public API
+# =====================================================================================================
+SORT_KEYS = {'id': 'id', 'prio': 'prio', 'name': 'name', 'bad': 5}
 
 
-def owner_num(W, ow):
-    return W.num[id(owner_task(W, ow))]
+def materialise(W, vs, form):
+    """a sequence argument in one of the forms the API accepts"""
+    objs = [W.o(k) for k in vs]
+    if form == 'single':
+        assert len(objs) == 1 and objs[0] is not None
+        return objs[0]
+    if form == 'none':
+        assert not objs
+        return None
+    if form == 'tuple':
+        return tuple(objs)
+    if form == 'iter':
+        return iter(objs)
+    return objs
 
 
-def link_list(W, dirn, t):
+def ch_facade(W, o, how):
+    """children facade of a task / roots facade of a WBS: obtained now, or an old one from the pool"""
+    k = how.get('facade')
+    if k is not None:
+        kind, owner, f = W.facades[k]
+        assert kind == 'ch' and owner == o, (kind, owner, o)
+        return f
+    if W.is_root(o):
+        return W.wbs_of_root(o).roots
+    return W.objs[o].children
+
+
+def ln_facade(W, dirn, t, how):
+    k = how.get('facade')
+    if k is not None:
+        kind, owner, f = W.facades[k]
+        assert kind == ('pr' if dirn else 'su') and owner == t, (kind, owner, t)
+        return f
     return W.objs[t].predecessors if dirn else W.objs[t].successors
 
 
+def new_facade(W, kind, owner):
+    if kind == 'ch':
+        f = ch_facade(W, owner, {})
+    else:
+        f = ln_facade(W, kind == 'pr', owner, {})
+    W.facades.append((kind, owner, f))
+    return len(W.facades) - 1
+
+
 def src_list(W, src):
+    """a task list obtained through the public API (for list-level << >> and bulk assignment)"""
     k = src[0]
-    if k == 'children':
-        return owner_list(W, src[1])
     if k == 'tasks':
         return W.wbss[src[1]].tasks
+    if k == 'roots':
+        return W.wbss[src[1]].roots
+    if k == 'children':
+        return W.objs[src[1]].children
     if k == 'all_children':
         return W.objs[src[1]].all_children
+    if k == 'all_parents':
+        return W.objs[src[1]].all_parents
+    if k == 'preds':
+        return W.objs[src[1]].predecessors
+    if k == 'succs':
+        return W.objs[src[1]].successors
     if k == 'filter':
-        return owner_list(W, src[1])(id_in_=src[2])
+        return src_list(W, src[1])(id_in_=src[2])
+    if k == 'raw':       # replay only: no public list with exactly these elements was found
+        return taskmod._ImmutableTaskList([W.objs[x] for x in src[1]])
     raise ValueError(k)
+
+
+def all_sources(W):
+    res = []
+    for wi in range(len(W.wbss)):
+        res += [['tasks', wi], ['roots', wi]]
+    for k in W.users():
+        res += [['children', k], ['all_children', k], ['preds', k], ['succs', k], ['all_parents', k]]
+    return res
+
+
+def find_source(W, ts):
+    """some public list whose elements are exactly ts, in order"""
+    ids = sorted(set(W.objs[x].id for x in ts))
+    for s in all_sources(W):
+        for cand in (s, ['filter', s, ids]):
+            try:
+                if W.nums(src_list(W, cand)) == ts:
+                    return cand
+            except BaseException:  # noqa
+                pass
+    return ['raw', ts]
+
+
+def remove_all_call(f, ids, v):
+    if v == 'all':
+        return f.remove_all()
+    if v == 'key':
+        return f.remove_all(lambda t: t.id in ids)
+    if v == 'id':
+        assert len(ids) == 1
+        return f.remove_all(id=ids[0])
+    if v == 'key+kw':
+        return f.remove_all(lambda t: True, id_in_=ids)
+    return f.remove_all(id_in_=ids)
+
+
+def execute(W, op, how):
+    """performs the call; whatever the implementation raises propagates"""
+    k = op[0]
+    form = how.get('form', 'list')
+    v = how.get('v')
+    if k == 'NewTask':
+        _, i, pr, nm, e = op
+        kw = {}
+        if pr is not None:
+            kw['prio'] = pr
+        W.reg(Task(i, name=nm, estimate=e, **kw))
+    elif k == 'NewTaskRel':
+        _, i, nm, p, ch, su, pr = op
+        kw = {'name': nm}
+        if p is not None:
+            kw['parent'] = W.o(p)
+        if ch is not None:
+            kw['children'] = materialise(W, ch, how.get('fch', 'list'))
+        if su or how.get('pass_empty'):
+            kw['successors'] = materialise(W, su, how.get('fsu', 'list'))
+        if pr or how.get('pass_empty'):
+            kw['predecessors'] = materialise(W, pr, how.get('fpr', 'list'))
+        W.reg(Task(i, **kw))
+    elif k == 'NewWbs':
+        w = WBS()
+        W.wbss.append(w)
+        W.reg(w._root())
+    elif k == 'SetParent':
+        _, t, p = op
+        if v == 'setattr':
+            setattr(W.objs[t], 'parent', W.o(p))
+        else:
+            W.objs[t].parent = W.o(p)
+    elif k == 'SetChildren':
+        _, t, vs = op
+        val = materialise(W, vs, form)
+        if W.is_root(t):
+            W.wbs_of_root(t).roots = val
+        else:
+            W.objs[t].children = val
+    elif k == 'SetLinks':
+        _, d, t, vs = op
+        val = materialise(W, vs, form)
+        if d:
+            W.objs[t].predecessors = val
+        else:
+            W.objs[t].successors = val
+    elif k == 'ChAppend':
+        _, o, t = op
+        ch_facade(W, o, how).append(W.o(t))
+    elif k == 'ChRemove':
+        _, o, t = op
+        ch_facade(W, o, how).remove(W.o(t))
+    elif k == 'ChInsert':
+        _, o, i, t = op
+        ch_facade(W, o, how).insert(i, W.o(t))
+    elif k == 'ChMove':
+        _, o, ts, b, a = op
+        f = ch_facade(W, o, how)
+        val = materialise(W, ts, form)
+        if v == 'positional':
+            f.move(val, W.o(b), W.o(a))
+        else:
+            kw = {}
+            if b is not None or v == 'explicit-none':
+                kw['before'] = W.o(b)
+            if a is not None or v == 'explicit-none':
+                kw['after'] = W.o(a)
+            f.move(val, **kw)
+    elif k == 'ChSort':
+        _, o, key, rev = op
+        f = ch_facade(W, o, how)
+        if rev or v == 'explicit':
+            f.sort(SORT_KEYS[key], reverse=rev)
+        else:
+            f.sort(SORT_KEYS[key])
+    elif k == 'ChReorder':
+        _, o, ids = op
+        ch_facade(W, o, how).reorder(list(ids) if v != 'tuple' else tuple(ids))
+    elif k == 'ChRemoveAll':
+        _, o, ids = op
+        remove_all_call(ch_facade(W, o, how), ids, v)
+    elif k == 'LnAppend':
+        _, d, t, x = op
+        ln_facade(W, d, t, how).append(W.o(x))
+    elif k == 'LnRemove':
+        _, d, t, x = op
+        ln_facade(W, d, t, how).remove(W.o(x))
+    elif k == 'LnRemoveAll':
+        _, d, t, ids = op
+        remove_all_call(ln_facade(W, d, t, how), ids, v)
+    elif k == 'OpFloordiv':
+        _, o, vs = op
+        val = materialise(W, vs, form)
+        if v == 'iadd':
+            if W.is_root(o):
+                W.wbs_of_root(o).roots += val
+            else:
+                W.objs[o].children += val
+        elif v == 'facade_add':
+            f = ch_facade(W, o, how)
+            if W.is_root(o):
+                W.wbs_of_root(o).roots = f + val
+            else:
+                W.objs[o].children = f + val
+        else:
+            owner = W.wbs_of_root(o) if W.is_root(o) else W.objs[o]
+            owner // val
+    elif k == 'OpShift':
+        _, d, t, vs = op
+        val = materialise(W, vs, form)
+        if v == 'iadd':
+            if d:
+                W.objs[t].predecessors += val
+            else:
+                W.objs[t].successors += val
+        elif v == 'facade_add':
+            f = ln_facade(W, d, t, how)
+            if d:
+                W.objs[t].predecessors = f + val
+            else:
+                W.objs[t].successors = f + val
+        elif d:
+            W.objs[t] << val
+        else:
+            W.objs[t] >> val
+    elif k == 'LstShift':
+        _, d, ts, vs = op
+        lst = src_list(W, how['src'])
+        val = materialise(W, vs, form)
+        if d:
+            lst << val
+        else:
+            lst >> val
+    elif k == 'LstSetParent':
+        _, ts, p = op
+        lst = src_list(W, how['src'])
+        lst.parent = W.o(p)
+    elif k == 'WbsRemove':
+        _, w, t = op
+        W.wbss[w].remove(W.o(t))
+    elif k == 'WbsRemoveAll':
+        _, w, ids = op
+        remove_all_call(W.wbss[w], ids, v)
+    elif k == 'SetEst':
+        _, t, e = op
+        W.objs[t].estimate = e
+    elif k == 'SetPrio':
+        _, t, pv = op
+        W.objs[t].prio = pv
+    else:
+        raise ValueError('unknown op %r' % (k,))
+
+
+def normalise(W, op, how):
+    """the elements of a task list source are read now: they are the `ts` of the model's op"""
+    if op[0] in ('LstShift', 'LstSetParent'):
+        if 'src' not in how:
+            how['src'] = find_source(W, op[2] if op[0] == 'LstShift' else op[1])
+        ts = W.nums(src_list(W, how['src']))
+        op = list(op)
+        op[2 if op[0] == 'LstShift' else 1] = ts
+    return op
+
+
+def do_call(W, op, how, ids):
+    how = dict(how)
+    op = normalise(W, op, how)
+    code, exc = 0, None
+    try:
+        execute(W, op, how)
+    except BaseException as e:  # noqa - every exception of the implementation is an observation
+        if isinstance(e, (KeyboardInterrupt, SystemExit, AssertionError)) and not isinstance(e, RuntimeError):
+            raise
+        code, exc = exc_code(e), '%s: %s' % (type(e).__name__, str(e)[:120])
+    post = W.snapshot()
+    stale = how.get('facade') is not None
+    return {'op': op, 'how': how, 'code': code, 'exc': exc, 'post': post, 'reads': W.reads(ids), 'stale': stale}
+
+
+# =====================================================================================================
+# a read-only view of a snapshot, used by the generator to aim at legal / illegal arguments
+# =====================================================================================================
+class View:
+    def __init__(self, snap):
+        self.h = snap['heap']
+        self.wr = snap['wroots']
+        self.n = len(self.h)
+
+    def tid(self, x): return self.h[x][0]
+    def par(self, x): return self.h[x][1]
+    def kids(self, x): return self.h[x][2]
+    def preds(self, x): return self.h[x][3]
+    def succs(self, x): return self.h[x][4]
+    def own(self, x): return self.h[x][5]
+    def hid(self, x): return self.h[x][6]
+
+    def users(self):
+        return [x for x in range(self.n) if not self.hid(x)]
+
+    def anc(self, x):
+        res, seen = [], {x}
+        p = self.par(x)
+        while p is not None and p not in seen:
+            res.append(p)
+            seen.add(p)
+            p = self.par(p)
+        return res
+
+    def root(self, x):
+        a = self.anc(x)
+        return a[-1] if a else x
+
+    def pubpar(self, x):
+        p = self.par(x)
+        return None if p is None or self.hid(p) else p
+
+    def sub(self, x):
+        res, seen, stack = [], set(), [x]
+        while stack:
+            y = stack.pop()
+            if y in seen:
+                continue
+            seen.add(y)
+            res.append(y)
+            stack += reversed(self.kids(y))
+        return res
+
+    def closure(self, x, d):
+        seen, stack = set(), list(self.preds(x) if d else self.succs(x))
+        while stack:
+            y = stack.pop()
+            if y in seen:
+                continue
+            seen.add(y)
+            stack += self.preds(y) if d else self.succs(y)
+        return seen
+
+    def clash(self, p, chs):
+        tree = set(self.sub(self.root(p)))
+        inc = []
+        for c in chs:
+            for y in self.sub(c):
+                if y not in tree and y not in inc:
+                    inc.append(y)
+        ids = [self.tid(y) for y in inc]
+        return len(set(ids)) < len(ids) or bool(set(ids) & set(self.tid(y) for y in tree))
+
+    def links_bad(self, t, ups):
+        ups = set(ups)
+        return any(l in ups for x in self.sub(t) for l in self.preds(x) + self.succs(x))
+
+    def ok_parent(self, t, p):
+        if p == t:
+            return False
+        if self.own(t) is None:
+            if p is not None and self.pubpar(t) != p and self.clash(p, [t]):
+                return False
+        elif p is not None and self.own(p) != self.own(t):
+            return False
+        if p is not None:
+            a = self.anc(p)
+            if t in a or self.links_bad(t, [p] + a):
+                return False
+        return True
+
+    def ok_children(self, t, value):
+        value = [v for v in dict.fromkeys(value) if v is not None]
+        if t in value:
+            return False
+        if self.own(t) is None:
+            if any(self.own(v) is not None for v in value):
+                return False
+        elif any(self.own(v) is not None and self.own(v) != self.own(t) for v in value):
+            return False
+        if self.clash(t, value):
+            return False
+        a = self.anc(t)
+        return not any(v in a or self.links_bad(v, [t] + a) for v in value)
+
+    def ok_links(self, d, t, value):
+        value = [v for v in dict.fromkeys(value) if v is not None]
+        a, s = self.anc(t), self.sub(t)
+        if any(v == t or v in a or v in s for v in value):
+            return False
+        return not any(t in self.closure(v, d) for v in value)
+
+
+# =====================================================================================================
+# state-aware generation of one history
+# =====================================================================================================
+ID_POOL = [0, 1, 2, 3, 4, 5, 7, 9, -1, 12]
+KINDS = [('SetParent', 12), ('SetChildren', 9), ('SetLinks', 8), ('ChAppend', 9), ('ChRemove', 3), ('ChInsert', 8),
+         ('ChMove', 8), ('ChSort', 4), ('ChReorder', 4), ('ChRemoveAll', 2), ('LnAppend', 5), ('LnRemove', 3),
+         ('LnRemoveAll', 2), ('OpFloordiv', 9), ('OpShift', 7), ('LstShift', 5), ('LstSetParent', 2), ('WbsRemove', 2),
+         ('WbsRemoveAll', 2), ('SetEst', 1), ('SetPrio', 2)]
+P_ILLEGAL = 0.36
+P_STALE = 0.15
+
+
+def pick_form(rng, vs, allow_iter=True, allow_none=True):
+    forms = ['list'] * 5 + ['tuple']
+    if allow_iter:
+        forms.append('iter')
+    if len(vs) == 1 and vs[0] is not None:
+        forms += ['single'] * 3
+    if len(vs) == 0 and allow_none:
+        forms += ['none'] * 3
+    return rng.choice(forms)
+
+
+def decorate(rng, vs):
+    """None elements and repeated elements, both dropped by the API"""
+    vs = list(vs)
+    if rng.random() < 0.12:
+        vs.insert(rng.randint(0, len(vs)), None)
+    if vs and rng.random() < 0.12:
+        vs.insert(rng.randint(0, len(vs)), rng.choice(vs))
+    return vs
+
+
+class Gen:
+    def __init__(self, rng, W):
+        self.rng = rng
+        self.W = W
+        self.n_ops = rng.randint(10, 40)
+        self.n_tasks = rng.randint(4, 8)
+        self.ids = rng.sample(ID_POOL, rng.randint(3, min(5, self.n_tasks)))
+        self.unused_id = next(i for i in [6, 8, 11] if i not in self.ids)
+        self.n_wbs = rng.randint(2, 3)
+        self.made_tasks = 0
+        self.made_wbs = 0
+        self.used_ids = []
+
+    # ---- choices ----
+    def want_illegal(self):
+        return self.rng.random() < P_ILLEGAL
+
+    def choose(self, good, bad, illegal):
+        """from the wanted class if it is inhabited, else from the other one"""
+        first, second = (bad, good) if illegal else (good, bad)
+        pool = first or second
+        return self.rng.choice(pool) if pool else None
+
+    def new_id(self):
+        rng = self.rng
+        if self.made_tasks == self.n_tasks - 1 and len(set(self.used_ids)) == len(self.used_ids) and self.used_ids:
+            i = rng.choice(self.used_ids)          # several objects share an id
+        else:
+            i = rng.choice(self.ids)
+        return i
+
+    def facade_for(self, kinds, owners=None):
+        """a facade obtained earlier in the history (its index in the pool), or None"""
+        if self.rng.random() >= P_STALE:
+            return None
+        c = [k for k, (kind, owner, _) in enumerate(self.W.facades) if kind in kinds and (owners is None or owner in owners)]
+        return self.rng.choice(c) if c else None
+
+    def subset(self, l, p=0.6):
+        return [x for x in l if self.rng.random() < p]
+
+    # ---- creation ----
+    def gen_create(self, V):
+        rng = self.rng
+        users = V.users()
+        need_t, need_w = self.n_tasks - self.made_tasks, self.n_wbs - self.made_wbs
+        if need_w and (not need_t or rng.random() < need_w / (need_w + need_t + 1.0) or (self.made_wbs == 0 and self.made_tasks >= 2)):
+            self.made_wbs += 1
+            return ['NewWbs'], {}
+        self.made_tasks += 1
+        i = self.new_id()
+        self.used_ids.append(i)
+        nm = rng.choice(NAMES)
+        if len(users) >= 2 and rng.random() < 0.6:
+            return self.gen_new_rel(V, i, nm)
+        e = rng.choice([None, None, 0, 4, 8, 16, -1 if rng.random() < 0.3 else 8])
+        if e == -1:          # the constructor raises: nothing is created
+            self.made_tasks -= 1
+            self.used_ids.pop()
+        return ['NewTask', i, rng.choice([None, None, 1, 2, 3, 5]), nm, e], {}
+
+    def gen_new_rel(self, V, i, nm):
+        """Task(id, parent=, children=, successors=, predecessors=); the new object has the next number"""
+        rng = self.rng
+        users = V.users()
+        illegal = self.want_illegal()
+        # aim at an accepted call: parent whose tree does not hold the id, detached children without the id,
+        # dependencies outside the new family and not connected to each other
+        okp = [x for x in users if i not in [V.tid(y) for y in V.sub(V.root(x))]]
+        p = rng.choice(okp) if okp and rng.random() < 0.7 else None
+        fam = set(([p] + V.anc(p) + V.sub(V.root(p))) if p is not None else [])
+        fam_ids = set(V.tid(y) for y in fam) | {i}
+        ch = None
+        if rng.random() < 0.5:
+            ch = []
+            for c in self.subset([x for x in users if V.par(x) is None and x not in fam], 0.5)[:2]:
+                ids_c = [V.tid(y) for y in V.sub(c)]
+                if not set(ids_c) & fam_ids and not V.links_bad(c, fam):
+                    ch.append(c)
+                    fam_ids |= set(ids_c)
+        inside = fam | set(y for c in (ch or []) for y in V.sub(c))
+        free = [x for x in users if x not in inside]
+        su = self.subset(free, 0.3)[:2] if rng.random() < 0.45 else []
+        down = set(su) | set(y for x in su for y in V.closure(x, False))
+        pr = [x for x in self.subset(free, 0.3) if x not in down][:2] if rng.random() < 0.55 else []
+        if illegal:
+            r = rng.random()
+            if r < 0.35 and p is not None:
+                pr = pr + [rng.choice([p] + V.anc(p)[:1])]          # parent / ancestor as dependency: last argument fails
+                pr = [x for x in pr if not V.hid(x)]
+            elif r < 0.55 and su:
+                pr = pr + [su[0]]                                    # cycle through the new task
+            elif r < 0.75 and ch:
+                su = su + [ch[-1]]                                   # own child as successor
+            elif users:
+                ch = (ch or []) + [rng.choice(users)]
+        how = {'fch': pick_form(rng, ch or [], allow_none=False) if ch is not None else 'list',
+               'fsu': pick_form(rng, su, allow_none=False), 'fpr': pick_form(rng, pr, allow_none=False),
+               'pass_empty': rng.random() < 0.2}
+        if ch is not None:
+            ch = decorate(rng, ch) if how['fch'] != 'single' else ch
+        return ['NewTaskRel', i, nm, p, ch, su, pr], how
+
+    # ---- mutations ----
+    def gen_op(self, V):
+        rng = self.rng
+        users = V.users()
+        need = (self.n_tasks - self.made_tasks) + (self.n_wbs - self.made_wbs)
+        left = max(1, self.n_ops - self.step)
+        if len(users) < 2 or (need and rng.random() < min(1.0, 3.0 * need / left)):
+            if need:
+                return self.gen_create(V)
+        for _ in range(20):
+            kind = rng.choices([k for k, _ in KINDS], [w for _, w in KINDS])[0]
+            r = getattr(self, 'g_' + kind)(V)
+            if r is not None:
+                return r
+        return ['SetPrio', rng.choice(users), rng.randint(0, 5)], {}
+
+    def owners(self, V):
+        """tasks and hidden roots that can own a children list"""
+        return V.users() + list(V.wr)
+
+    def pick_owner(self, V):
+        """owners that already have children are preferred, so that lists of 2+ children are common"""
+        ow = self.owners(V)
+        return self.rng.choices(ow, [1 + 3 * len(V.kids(x)) + 2 * len(V.anc(x)) + (2 if V.hid(x) else 0) for x in ow])[0]
+
+    def g_SetParent(self, V):
+        users = V.users()
+        good, bad = [], []
+        for t in users:
+            for p in users + [None]:
+                (good if V.ok_parent(t, p) else bad).append((t, p))
+        moving = [(t, p) for t, p in good if V.pubpar(t) != p]
+        if moving and self.rng.random() < 0.85:
+            good = moving
+        illegal = self.want_illegal()
+        pool = (bad or good) if illegal else (good or bad)
+        if not pool:
+            return None
+        c = self.rng.choices(pool, [(1 + 3 * len(V.kids(p)) + 3 * len(V.anc(p))) if p is not None else 0.5 for _, p in pool])[0]
+        return ['SetParent', c[0], c[1]], {'v': self.rng.choice([None, None, 'setattr'])}
+
+    def list_arg(self, V, cur, cands, ok, illegal, keep=0.6, max_add=2):
+        """a sequence argument: part of the current list, legal additions, and (illegal) an offender
+        that is mostly the LAST element"""
+        rng = self.rng
+        vs = self.subset(cur, keep)
+        rng.shuffle(vs) if rng.random() < 0.5 else None
+        if not ok(vs):
+            vs = []
+        for _ in range(rng.randint(0, max_add)):
+            add = [c for c in cands if c not in vs and ok(vs + [c])]
+            if add:
+                vs.append(rng.choice(add))
+        if illegal:
+            off = [c for c in cands if not ok(vs + [c])]
+            if off:
+                x = rng.choice(off)
+                if rng.random() < 0.75:
+                    vs.append(x)
+                else:
+                    vs.insert(rng.randint(0, len(vs)), x)
+        return vs
+
+    def g_SetChildren(self, V):
+        rng = self.rng
+        t = self.pick_owner(V)
+        vs = self.list_arg(V, V.kids(t), V.users(), lambda l: V.ok_children(t, l), self.want_illegal(),
+                           keep=rng.choice([0.5, 0.9, 0.9, 1.0]))
+        form = pick_form(rng, vs)
+        if form not in ('single', 'none'):
+            vs = decorate(rng, vs)
+        return ['SetChildren', t, vs], {'form': form}
+
+    def g_SetLinks(self, V):
+        rng = self.rng
+        t = rng.choice(V.users())
+        d = rng.random() < 0.5
+        cur = V.preds(t) if d else V.succs(t)
+        vs = self.list_arg(V, cur, V.users(), lambda l: V.ok_links(d, t, l), self.want_illegal())
+        form = pick_form(rng, vs)
+        if form not in ('single', 'none'):
+            vs = decorate(rng, vs)
+        return ['SetLinks', d, t, vs], {'form': form}
+
+    def ch_owner(self, V):
+        k = self.facade_for(['ch'])
+        if k is not None:
+            return self.W.facades[k][1], k
+        return self.pick_owner(V), None
+
+    def g_ChAppend(self, V):
+        rng = self.rng
+        o, k = self.ch_owner(V)
+        illegal = self.want_illegal()
+        if illegal and rng.random() < 0.1:
+            return ['ChAppend', o, None], {'facade': k}
+        good = [t for t in V.users() if V.ok_parent(t, o)]
+        bad = [t for t in V.users() if not V.ok_parent(t, o)]
+        newc = [t for t in good if V.par(t) != o]
+        if newc and rng.random() < 0.8:
+            good = newc
+        t = self.choose(good, bad, illegal)
+        return ['ChAppend', o, t], {'facade': k}
+
+    def g_ChRemove(self, V):
+        rng = self.rng
+        o, k = self.ch_owner(V)
+        kids = V.kids(o)
+        r = rng.random()
+        if kids and r < 0.75:
+            t = rng.choice(kids)
+        elif r < 0.93:
+            t = rng.choice(V.users())
+        else:
+            t = None
+        return ['ChRemove', o, t], {'facade': k}
+
+    def g_ChInsert(self, V):
+        rng = self.rng
+        o, k = self.ch_owner(V)
+        illegal = self.want_illegal()
+        good = [t for t in V.users() if V.ok_parent(t, o)]
+        bad = [t for t in V.users() if not V.ok_parent(t, o)]
+        bad_index = illegal and rng.random() < 0.6
+        t = self.choose(good, bad, illegal and not bad_index)
+        if t is None or (illegal and rng.random() < 0.05):
+            return ['ChInsert', o, rng.randint(-2, 2), None], {'facade': k}
+        n = len([x for x in V.kids(o) if x != t]) + 1
+        if bad_index:
+            i = rng.choice([n, n + 1, -n - 1, 99, -99, n])
+        else:
+            i = rng.randint(-n, n - 1)
+        return ['ChInsert', o, i, t], {'facade': k}
+
+    def g_ChMove(self, V):
+        rng = self.rng
+        o, k = self.ch_owner(V)
+        kids = V.kids(o)
+        if len(kids) < 2 and rng.random() < 0.8:
+            big = [x for x in self.owners(V) if len(V.kids(x)) >= 2]
+            if big:
+                o, k = rng.choice(big), None
+                kids = V.kids(o)
+        illegal = self.want_illegal()
+        if len(kids) < 2 and not illegal and rng.random() < 0.9:
+            return None
+        others = [x for x in V.users() if x not in kids]
+        ts = rng.sample(kids, min(len(kids) - (0 if illegal else 1), rng.choice([1, 1, 1, 2, 2, 3]))) if kids else []
+        rest = [x for x in kids if x not in ts]
+        b = a = None
+        anchor = rng.choice(rest) if rest else None
+        if rng.random() < 0.5:
+            b = anchor
+        else:
+            a = anchor
+        if illegal or anchor is None:
+            r = rng.random()
+            if r < 0.3 and others:                      # missing anchor
+                if rng.random() < 0.5:
+                    b, a = rng.choice(others), None
+                else:
+                    b, a = None, rng.choice(others)
+            elif r < 0.45:                              # no anchor at all
+                b = a = None
+            elif r < 0.55 and len(kids) >= 2:           # both anchors
+                b, a = rng.sample(kids, 2)
+            elif r < 0.75 and ts:                       # anchor among the moved tasks
+                if rng.random() < 0.5:
+                    b, a = rng.choice(ts), None
+                else:
+                    b, a = None, rng.choice(ts)
+            elif others:                                # the LAST task to move is not in the list
+                ts = ts + [rng.choice(others)]
+            else:
+                b = a = None
+        form = pick_form(rng, ts)
+        if form not in ('single', 'none') and rng.random() < 0.1:
+            ts = ts + [None] if rng.random() < 0.5 else [None] + ts
+        return ['ChMove', o, ts, b, a], {'facade': k, 'form': form,
+                                         'v': rng.choice([None, None, 'explicit-none', 'positional'])}
+
+    def g_ChSort(self, V):
+        rng = self.rng
+        o, k = self.ch_owner(V)
+        if len(V.kids(o)) < 2 and rng.random() < 0.85:
+            big = [x for x in self.owners(V) if len(V.kids(x)) >= 2]
+            if not big:
+                return None
+            o, k = rng.choice(big), None
+        key = rng.choice(['id', 'id', 'name', 'name', 'prio', 'prio', 'bad'])
+        return ['ChSort', o, key, rng.random() < 0.4], {'facade': k, 'v': rng.choice([None, 'explicit'])}
+
+    def g_ChReorder(self, V):
+        rng = self.rng
+        o, k = self.ch_owner(V)
+        if len(V.kids(o)) < 2 and rng.random() < 0.85:
+            big = [x for x in self.owners(V) if len(V.kids(x)) >= 2]
+            if not big:
+                return None
+            o, k = rng.choice(big), None
+        kid_ids = [V.tid(x) for x in V.kids(o)]
+        ids = rng.sample(kid_ids, rng.randint(0, len(kid_ids)))
+        if self.want_illegal():
+            r = rng.random()
+            if r < 0.5 or not ids:
+                ids.append(rng.choice([i for i in self.ids + [self.unused_id] if i not in kid_ids] or [self.unused_id]))
+            else:
+                ids.append(rng.choice(ids))
+        return ['ChReorder', o, ids], {'facade': k, 'v': rng.choice([None, 'tuple'])}
+
+    def ids_arg(self, present):
+        rng = self.rng
+        pool = list(dict.fromkeys(present + self.ids + [self.unused_id]))
+        ids = self.subset(pool, 0.35)
+        if present and rng.random() < 0.6 and not set(ids) & set(present):
+            ids.append(rng.choice(present))
+        v = rng.choice([None, None, 'key', 'key+kw'])
+        if len(ids) == 1 and rng.random() < 0.5:
+            v = 'id'
+        if rng.random() < 0.08:
+            v, ids = 'all', list(dict.fromkeys(self.ids + [self.unused_id] + present))
+        return ids, v
+
+    def g_ChRemoveAll(self, V):
+        o, k = self.ch_owner(V)
+        if not V.kids(o) and self.rng.random() < 0.8:
+            return None
+        ids, v = self.ids_arg([V.tid(x) for x in V.kids(o)])
+        return ['ChRemoveAll', o, ids], {'facade': k, 'v': v}
+
+    def ln_owner(self, V, d):
+        k = self.facade_for(['pr' if d else 'su'])
+        if k is not None:
+            return self.W.facades[k][1], k
+        return self.rng.choice(V.users()), None
+
+    def g_LnAppend(self, V):
+        rng = self.rng
+        d = rng.random() < 0.5
+        t, k = self.ln_owner(V, d)
+        illegal = self.want_illegal()
+        if illegal and rng.random() < 0.08:
+            return ['LnAppend', d, t, None], {'facade': k}
+        cur = V.preds(t) if d else V.succs(t)
+        good = [x for x in V.users() if V.ok_links(d, t, cur + [x])]
+        bad = [x for x in V.users() if not V.ok_links(d, t, cur + [x])]
+        fresh = [x for x in good if x not in cur]
+        if fresh and rng.random() < 0.85:
+            good = fresh
+        return ['LnAppend', d, t, self.choose(good, bad, illegal)], {'facade': k}
+
+    def g_LnRemove(self, V):
+        rng = self.rng
+        d = rng.random() < 0.5
+        t, k = self.ln_owner(V, d)
+        cur = V.preds(t) if d else V.succs(t)
+        if not cur and rng.random() < 0.7:
+            linked = [x for x in V.users() if (V.preds(x) if d else V.succs(x))]
+            if not linked:
+                return None
+            t, k = rng.choice(linked), None
+            cur = V.preds(t) if d else V.succs(t)
+        r = rng.random()
+        x = rng.choice(cur) if cur and r < 0.75 else (rng.choice(V.users()) if r < 0.94 else None)
+        return ['LnRemove', d, t, x], {'facade': k}
+
+    def g_LnRemoveAll(self, V):
+        rng = self.rng
+        d = rng.random() < 0.5
+        t, k = self.ln_owner(V, d)
+        cur = V.preds(t) if d else V.succs(t)
+        if not cur:
+            linked = [x for x in V.users() if (V.preds(x) if d else V.succs(x))]
+            if not linked:
+                return None
+            t, k = rng.choice(linked), None
+            cur = V.preds(t) if d else V.succs(t)
+        ids, v = self.ids_arg([V.tid(x) for x in cur])
+        return ['LnRemoveAll', d, t, ids], {'facade': k, 'v': v}
+
+    def g_OpFloordiv(self, V):
+        rng = self.rng
+        k = self.facade_for(['ch'])
+        o = self.W.facades[k][1] if k is not None else self.pick_owner(V)
+        cur = V.kids(o)
+        vs = self.list_arg(V, [], V.users(), lambda l: V.ok_children(o, cur + l), self.want_illegal(), max_add=3)
+        if cur and rng.random() < 0.2:
+            vs.insert(rng.randint(0, len(vs)), rng.choice(cur))        # a task that is already a member
+        form = pick_form(rng, vs)
+        if form not in ('single', 'none'):
+            vs = decorate(rng, vs)
+        v = 'facade_add' if k is not None else rng.choice([None, None, 'iadd'])
+        return ['OpFloordiv', o, vs], {'form': form, 'v': v, 'facade': k}
+
+    def g_OpShift(self, V):
+        rng = self.rng
+        d = rng.random() < 0.5
+        k = self.facade_for(['pr' if d else 'su'])
+        t = self.W.facades[k][1] if k is not None else rng.choice(V.users())
+        cur = V.preds(t) if d else V.succs(t)
+        vs = self.list_arg(V, [], V.users(), lambda l: V.ok_links(d, t, cur + l), self.want_illegal(), max_add=3)
+        if cur and rng.random() < 0.2:
+            vs.insert(rng.randint(0, len(vs)), rng.choice(cur))
+        form = pick_form(rng, vs)
+        if form not in ('single', 'none'):
+            vs = decorate(rng, vs)
+        v = 'facade_add' if k is not None else rng.choice([None, None, 'iadd'])
+        return ['OpShift', d, t, vs], {'form': form, 'v': v, 'facade': k}
+
+    def a_source(self, V, min_len=1):
+        rng = self.rng
+        c = []
+        for s in all_sources(self.W):
+            try:
+                ts = self.W.nums(src_list(self.W, s))
+            except BaseException:  # noqa
+                continue
+            if len(ts) >= min_len:
+                c.append((s, ts))
+        if not c:
+            return None
+        multi = [x for x in c if len(x[1]) >= 2]
+        s, ts = rng.choice(multi if multi and rng.random() < 0.8 else c)
+        if len(ts) >= 2 and rng.random() < 0.3:
+            ids = self.subset(sorted(set(V.tid(x) for x in ts)), 0.6) or [V.tid(ts[0])]
+            s = ['filter', s, ids]
+            ts = [x for x in ts if V.tid(x) in ids]
+        return s, ts
+
+    def g_LstShift(self, V):
+        rng = self.rng
+        st = self.a_source(V)
+        if st is None:
+            return None
+        s, ts = st
+        d = rng.random() < 0.5
+        users = V.users()
+
+        def ok_for(t, l):
+            return V.ok_links(d, t, (V.preds(t) if d else V.succs(t)) + l)
+        illegal = self.want_illegal()
+        vs = []
+        for _ in range(rng.randint(1, 2)):
+            add = [c for c in users if c not in vs and all(ok_for(t, vs + [c]) for t in ts)]
+            if add:
+                vs.append(rng.choice(add))
+        if illegal:
+            # accepted by the first element(s) of the list, rejected by a later one (mostly the last)
+            late = [c for c in users if ts and ok_for(ts[0], vs + [c]) and not all(ok_for(t, vs + [c]) for t in ts)]
+            anyb = [c for c in users if not all(ok_for(t, vs + [c]) for t in ts)]
+            pool = late if late and rng.random() < 0.8 else anyb
+            if pool:
+                vs.append(rng.choice(pool))
+        form = pick_form(rng, vs, allow_iter=False)
+        if form not in ('single', 'none') and rng.random() < 0.1:
+            vs = vs + [None]
+        return ['LstShift', d, ts, vs], {'src': s, 'form': form}
+
+    def g_LstSetParent(self, V):
+        rng = self.rng
+        st = self.a_source(V)
+        if st is None:
+            return None
+        s, ts = st
+        users = V.users()
+        cands = users + [None]
+        illegal = self.want_illegal()
+        # sequential legality is approximated element by element on the current state
+        good = [p for p in cands if all(V.ok_parent(t, p) for t in ts)]
+        late = [p for p in cands if ts and V.ok_parent(ts[0], p) and not all(V.ok_parent(t, p) for t in ts)]
+        bad = [p for p in cands if not all(V.ok_parent(t, p) for t in ts)]
+        if illegal:
+            pool = late if late and rng.random() < 0.8 else (bad or good)
+        else:
+            pool = good or bad
+        if not pool:
+            return None
+        return ['LstSetParent', ts, rng.choice(pool)], {'src': s}
+
+    def g_WbsRemove(self, V):
+        rng = self.rng
+        if not V.wr:
+            return None
+        w = rng.randrange(len(V.wr))
+        members = V.sub(V.wr[w])[1:]
+        r = rng.random()
+        if members and r < 0.7:
+            t = rng.choice(members)
+        elif r < 0.93:
+            t = rng.choice(V.users())
+        else:
+            t = None
+        return ['WbsRemove', w, t], {}
+
+    def g_WbsRemoveAll(self, V):
+        rng = self.rng
+        if not V.wr:
+            return None
+        w = rng.randrange(len(V.wr))
+        members = V.sub(V.wr[w])[1:]
+        if not members and rng.random() < 0.8:
+            return None
+        ids, v = self.ids_arg([V.tid(x) for x in members])
+        return ['WbsRemoveAll', w, ids], {'v': v}
+
+    def g_SetEst(self, V):
+        return ['SetEst', self.rng.choice(V.users()), self.rng.choice([None, 0, 8, 40, -1, -8])], {}
+
+    def g_SetPrio(self, V):
+        return ['SetPrio', self.rng.choice(V.users()), self.rng.randint(0, 5)], {}
+
+    def maybe_keep_facade(self, V):
+        """`f = t.children` / `wbs.roots` / `t.predecessors` kept for later use"""
+        rng = self.rng
+        if not V.users() or rng.random() >= 0.3:
+            return
+        kind = rng.choice(['ch', 'ch', 'ch', 'pr', 'su'])
+        owners = self.owners(V) if kind == 'ch' else V.users()
+        if kind == 'ch':
+            busy = [x for x in owners if V.kids(x)]
+            if busy and rng.random() < 0.7:
+                owners = busy
+        if len(self.W.facades) >= 8:
+            return
+        o = rng.choice(owners)
+        new_facade(self.W, kind, o)
+        return [kind, o]
+
+
+def gen_history(seed):
+    rng = random.Random('graph-history/%s' % seed)
+    W = World()
+    G = Gen(rng, W)
+    ids = G.ids + [G.unused_id]
+    steps = []
+    snap = W.snapshot()
+    for step in range(G.n_ops):
+        G.step = step
+        V = View(snap)
+        acq = G.maybe_keep_facade(V)
+        op, how = G.gen_op(V)
+        how = {k: v for k, v in how.items() if v is not None}
+        rec = do_call(W, op, how, ids)
+        rec['acq'] = [acq] if acq else []
+        steps.append(rec)
+        snap = rec['post']
+    return {'seed': seed, 'steps': steps, 'anomalies': sorted(set(W.anomalies)),
+            'plan': {'ops': G.n_ops, 'tasks': G.n_tasks, 'ids': G.ids, 'wbs': G.n_wbs}}
+
+
+def run_ops(items):
+    """a given history: ops (optionally [op, how]) and ['Facade', kind, owner] acquisitions"""
+    W = World()
+    steps = []
+    for it in items:
+        if it and it[0] == 'Facade':
+            new_facade(W, it[1], it[2])
+            continue
+        op, how = (it[0], it[1]) if (len(it) == 2 and isinstance(it[1], dict)) else (it, {})
+        ids = sorted(set(t.id for t in W.objs if t.id != taskmod.EMPTY_TASK_ID) | ({op[1]} if op[0] in ('NewTask', 'NewTaskRel') else set()))
+        steps.append(do_call(W, op, how, ids + [max(ids + [0]) + 1]))
+    return {'steps': steps, 'anomalies': sorted(set(W.anomalies))}
+
+
+def run_pair(case):
+    """one call on a constructed state (replay of a single (pre-state, op) pair)"""
+    W = World()
+    W.build(case['pre'])
+    pre = W.snapshot()
+    how = {k: v for k, v in (case.get('how') or {}).items() if k != 'facade'}
+    if how.get('v') == 'facade_add':
+        how.pop('v')
+    if 'src' in how:
+        try:
+            op = case['op']
+            if W.nums(src_list(W, how['src'])) != (op[2] if op[0] == 'LstShift' else op[1]):
+                how.pop('src')
+        except BaseException:  # noqa
+            how.pop('src')
+    ids = sorted(set(r[0] for r in case['pre']['heap'] if not r[6]))
+    rec = do_call(W, case['op'], how, ids + [max(ids + [0]) + 1])
+    rec['pre'] = pre
+    rec['built_exactly'] = pre == case['pre']
+    rec['anomalies'] = sorted(set(W.anomalies))
+    return rec
+
+
+def run(payload):
+    sys.setrecursionlimit(1000)
+    mode = payload['mode']
+    if mode == 'gen':
+        return [gen_history(s) for s in payload['seeds']]
+    if mode == 'ops':
+        return [run_ops(h) for h in payload['histories']]
+    if mode == 'pair':
+        return [run_pair(c) for c in payload['cases']]
+    raise ValueError(mode)
+
+
+if __name__ == '__main__':
+    main(run)
